@@ -47,6 +47,36 @@ Definition flag_domain (n : nat) : list Z := map Z.of_nat (seq 0 n).
 (* the configuration the model runs for a flags value *)
 Definition mk_cfg_flags (f reqcap : Z) (nw maxtry : nat) : cfg := mk_cfg (flag_wk f) (flag_rm f) reqcap nw maxtry.
 
+(* the link between the re-extracted table and the quantifier of the flags theorems
+   (ProofsFlags.v): for the flags value of a row, the functions the CODE installed are those of the
+   configuration mk_cfg_flags selects -- the lock sub-automaton g_wk, the writer / wake / reader
+   program points g_rm, the rounded capacity -- the write mutex / read mutex / condition variable
+   exist exactly when that configuration uses them, and a writer selector other than
+   MUGGLE_CHANNEL_FLAG_WRITE_SINGLE never installs the no-op lock *)
+Definition wkind_eqb (a b : wkind) : bool :=
+  match a, b with WMutex, WMutex | WSync, WSync | WSpin, WSpin | WSingle, WSingle => true | _, _ => false end.
+Definition rmode_eqb (a b : rmode) : bool :=
+  match a, b with RSync, RSync | RMutex, RMutex | RBusy, RBusy => true | _, _ => false end.
+Definition fnid_eqb (a b : fnid) : bool :=
+  match a, b with
+  | FLock k, FLock l | FUnlock k, FUnlock l => wkind_eqb k l
+  | FWrite m, FWrite n | FWake m, FWake n | FRead m, FRead n => rmode_eqb m n
+  | _, _ => false
+  end.
+Definition row_selects_cfg (row : dispatch_row) : bool :=
+  match row with
+  | (f, rc, _, _, (wm, rmx, rcv), (fl, fu, fw, fk, fr), cap) =>
+    let g := mk_cfg_flags f 4 0 0 in
+    Z.eqb rc 0 &&
+    fnid_eqb fl (FLock (g_wk g)) && fnid_eqb fu (FUnlock (g_wk g)) &&
+    fnid_eqb fw (FWrite (g_rm g)) && fnid_eqb fk (FWake (g_rm g)) && fnid_eqb fr (FRead (g_rm g)) &&
+    Z.eqb cap (g_cap g) &&
+    Bool.eqb wm (is_wmutex (g_wk g)) && Bool.eqb rmx (is_rmutex (g_rm g)) && Bool.eqb rcv (is_rmutex (g_rm g)) &&
+    (Z.eqb (Z.land f 15) 3 || negb (fnid_eqb fl (FLock WSingle)) && negb (fnid_eqb fu (FUnlock WSingle)))
+  end.
+Definition row_flags (row : dispatch_row) : Z :=
+  match row with (f, _, _, _, _, _, _) => f end.
+
 (* capacity: refused when <= 0 or when the rounding does not fit muggle_sync_t (uint32_t) *)
 Definition init_cap (req : Z) : option Z :=
   if Z.leb req 0 then None
